@@ -10,6 +10,7 @@ import (
 	"errors"
 	"fmt"
 	"io"
+	"math/big"
 	"runtime"
 	"sync"
 
@@ -30,7 +31,8 @@ func genParents(r *Rng, signed bool) []any {
 		if signed {
 			return genSigBytes(r)
 		}
-		return nil
+		// not signed: the field never set, or reset for signing again (empty, not nil)
+		return pick(r, [][]byte{nil, nil, {}, make([]byte, 0, 16)})
 	}
 	s1 := &cose.Sign1Message{Headers: genGoHeaders(r, cfg, -7, true, r.Chance(1, 3)), Payload: genGoPayload(r), Signature: sig()}
 	sm := &cose.SignMessage{Headers: genGoHeaders(r, cfg, 0, false, r.Chance(1, 3)), Payload: genGoPayload(r)}
@@ -781,6 +783,42 @@ func runC11(c *Collector, r *Rng, thorough bool) {
 			if err := m.Verify(ext, verifiers...); err != nil {
 				c.Fail("C11/valid-refused", "a correctly signed COSE_Sign does not verify: "+err.Error(), rep)
 			}
+			// after a wire round trip (zero-length payloads included) the same verifiers accept, position by position
+			if b, err := m.MarshalCBOR(); err == nil {
+				var dm cose.SignMessage
+				if err := dm.UnmarshalCBOR(b); err != nil {
+					c.Fail("C11/valid-refused", "a correctly signed COSE_Sign cannot be parsed back: "+err.Error(), rep)
+				} else if err := dm.Verify(ext, verifiers...); err != nil {
+					c.Fail("C11/valid-refused", "a correctly signed COSE_Sign does not verify after MarshalCBOR / UnmarshalCBOR: "+err.Error(), rep)
+				}
+			}
+			// one signature replaced by the same integers in another form (halves padded / stripped alike, DER, one
+			// extra octet, truncated), at every position: a single malformed signature fails the whole verification
+			for j := 0; j < n; j++ {
+				orig := m.Signatures[j].Signature
+				half := len(orig) / 2
+				variants := map[string][]byte{"truncated": orig[:len(orig)-1], "extra-octet": append(append([]byte{}, orig...), 0)}
+				if k.alg == cose.AlgorithmES256 || k.alg == cose.AlgorithmES384 || k.alg == cose.AlgorithmES512 {
+					variants["both-halves-padded-1"] = append(append(append([]byte{0}, orig[:half]...), 0), orig[half:]...)
+					variants["both-halves-padded-2"] = append(append(append([]byte{0, 0}, orig[:half]...), 0, 0), orig[half:]...)
+					variants["leading-zero"] = append([]byte{0}, orig...)
+					variants["der"] = derRS(new(big.Int).SetBytes(orig[:half]), new(big.Int).SetBytes(orig[half:]))
+				}
+				for name, v := range variants {
+					t := &cose.SignMessage{Headers: m.Headers, Payload: payload}
+					for q, sg := range m.Signatures {
+						cp := &cose.Signature{Headers: sg.Headers, Signature: sg.Signature}
+						if q == j {
+							cp.Signature = v
+						}
+						t.Signatures = append(t.Signatures, cp)
+					}
+					var verr error
+					if p, _ := protect(func() { verr = t.Verify(ext, verifiers...) }); !p && verr == nil {
+						c.Fail("C11/malformed-signature-accepted", fmt.Sprintf("COSE_Sign verified although signature %d was replaced by its %s form (%d octets instead of %d)", j, name, len(v), len(orig)), rep)
+					}
+				}
+			}
 			// signatures made by the standard library over the RFC structure are accepted
 			m2 := &cose.SignMessage{Headers: m.Headers, Payload: payload}
 			for j := 0; j < n; j++ {
@@ -1212,6 +1250,85 @@ func runC20(c *Collector, r *Rng, thorough bool) {
 			}
 		}
 	}
+	// ---- no encoder emits an empty signature slot, whatever else the object carries: typed buckets, retained raw
+	// buckets (a decoded object whose signature was cleared for signing again), or both; nil and empty slots ----
+	for _, rawMode := range []string{"typed", "raw-both", "raw-protected-only", "raw-and-typed"} {
+		for _, empty := range [][]byte{nil, {}} {
+			mkH := func() cose.Headers {
+				h := cose.Headers{}
+				if rawMode != "raw-both" && rawMode != "raw-protected-only" {
+					h.Protected = cose.ProtectedHeader{cose.HeaderLabelAlgorithm: cose.AlgorithmES256}
+					h.Unprotected = cose.UnprotectedHeader{int64(4): []byte("11")}
+				}
+				if rawMode != "typed" {
+					h.RawProtected = []byte{0x43, 0xa1, 0x01, 0x26}
+					if rawMode != "raw-protected-only" {
+						h.RawUnprotected = []byte{0xa1, 0x04, 0x42, 0x31, 0x31}
+					}
+				}
+				return h
+			}
+			rep := map[string]any{"buckets": rawMode, "slot": nilOrHex(empty)}
+			type enc struct {
+				name string
+				f    func() ([]byte, error)
+			}
+			cs := &cose.Countersignature{Headers: mkH(), Signature: empty}
+			parentWith := func(v any) func() ([]byte, error) {
+				return func() ([]byte, error) {
+					return (&cose.Sign1Message{Headers: cose.Headers{Protected: cose.ProtectedHeader{cose.HeaderLabelAlgorithm: cose.AlgorithmES256}, Unprotected: cose.UnprotectedHeader{int64(11): v}}, Payload: []byte("p"), Signature: []byte{1}}).MarshalCBOR()
+				}
+			}
+			for _, e := range []enc{
+				{"Sign1Message.MarshalCBOR", (&cose.Sign1Message{Headers: mkH(), Payload: []byte("p"), Signature: empty}).MarshalCBOR},
+				{"UntaggedSign1Message.MarshalCBOR", (&cose.UntaggedSign1Message{Headers: mkH(), Payload: []byte("p"), Signature: empty}).MarshalCBOR},
+				{"Signature.MarshalCBOR", (&cose.Signature{Headers: mkH(), Signature: empty}).MarshalCBOR},
+				{"Countersignature.MarshalCBOR", cs.MarshalCBOR},
+				{"SignMessage.MarshalCBOR", (&cose.SignMessage{Headers: mkH(), Payload: []byte("p"), Signatures: []*cose.Signature{{Headers: mkH(), Signature: []byte{1}}, {Headers: mkH(), Signature: empty}}}).MarshalCBOR},
+				{"parent carrying the countersignature", parentWith(cs)},
+				{"parent carrying it in a list", parentWith([]*cose.Countersignature{{Headers: mkH(), Signature: []byte{1}}, cs})},
+			} {
+				var out []byte
+				var err error
+				if p, _ := protect(func() { out, err = e.f() }); p {
+					c.Fail("C20/panic", e.name+" panicked on an empty signature slot", rep)
+					continue
+				}
+				c.Eval("empty-slot-encoders/"+rawMode, e.name+nilOrHex(empty), true)
+				if err == nil {
+					c.Fail("C20/empty-signature-emitted", fmt.Sprintf("%s serialised an object whose signature slot is %s: %x", e.name, nilOrHex(empty), out), rep)
+				}
+			}
+		}
+	}
+	// ---- a signer that is also a Verifier (a key handle offering both operations): when Sign reports an error,
+	// whatever its cause, the message holds no signature and cannot be serialised ----
+	for _, verr := range []error{nil, cose.ErrVerification, errScripted} {
+		for _, tagged := range []bool{true, false} {
+			sv := &spySignerVerifier{spySigner: spySigner{alg: -7, kind: SOk, sig: bytes.Repeat([]byte{7}, 64)}, verr: verr}
+			m := &cose.Sign1Message{Headers: hdr(-7), Payload: []byte("p")}
+			var serr error
+			if tagged {
+				serr = m.Sign(nil, nil, sv)
+			} else {
+				serr = (*cose.UntaggedSign1Message)(m).Sign(nil, nil, sv)
+			}
+			out, merr := m.MarshalCBOR()
+			c.Eval("signer-that-also-verifies", fmt.Sprint(verr, tagged), true)
+			rep := map[string]any{"its Verify returns": fmt.Sprint(verr), "tagged": tagged}
+			if serr != nil && (len(m.Signature) != 0 || merr == nil) {
+				c.Fail("C20/signature-stored-on-error", fmt.Sprintf("Sign returned %q, yet the message holds the signature %x and serialises to %x", serr, trimTo(m.Signature, 16), trimTo(out, 40)), rep)
+			}
+			sm := &cose.SignMessage{Headers: cose.Headers{}, Payload: []byte("p"), Signatures: []*cose.Signature{{Headers: hdr(-7)}}}
+			if e := sm.Sign(nil, nil, sv); e != nil && len(sm.Signatures[0].Signature) != 0 {
+				c.Fail("C20/signature-stored-on-error", "SignMessage.Sign returned an error, yet the slot holds a signature", rep)
+			}
+			cs := &cose.Countersignature{Headers: hdr(-7)}
+			if e := cs.Sign(nil, sv, &cose.Sign1Message{Headers: hdr(-7), Payload: []byte("p"), Signature: []byte{1}}, nil); e != nil && len(cs.Signature) != 0 {
+				c.Fail("C20/countersign-stored-on-error", "Countersignature.Sign returned an error, yet the slot holds a signature", rep)
+			}
+		}
+	}
 	// ---- a key (HSM / KMS adapter around a real key) that fails the first time it is asked and would succeed the
 	// second time, and an entropy source whose first read fails: the failure is the caller's to see; one signing call
 	// asks the key once ----
@@ -1418,6 +1535,14 @@ func (s *slowSigner) Sign(_ io.Reader, content []byte) ([]byte, error) {
 	s.seen = append([]byte{}, content...)
 	return []byte{1, 2, 3}, nil
 }
+
+// spySignerVerifier: a recording signer that also implements cose.Verifier
+type spySignerVerifier struct {
+	spySigner
+	verr error
+}
+
+func (s *spySignerVerifier) Verify(content, sig []byte) error { return s.verr }
 
 // failOnceSigner: a crypto.Signer around a real key whose odd-numbered Sign calls fail
 type failOnceSigner struct {
